@@ -36,7 +36,7 @@ struct LenpHarness : Harness {
     std::vector<std::string> props() const override { return {"C13"}; }
     std::vector<std::string> probes(const std::string &) const override {
         return {"varint_prefix_1", "varint_prefix_2", "varint_prefix_3plus", "buffer_with_offset_and_free_space", "chunk_list_with_empty_chunk", "chunk_list_active_nonzero",
-                "frame_split_inside_prefix", "destination_one_octet_too_small", "over_maximum_refused", "sink_error_mid_frame", "buffer_n_less_than_rest",
+                "frame_split_inside_prefix", "destination_one_octet_too_small", "over_maximum_refused", "unmaterialised_length_accepted", "kind_maximum_accepted", "sink_error_mid_frame", "buffer_n_less_than_rest",
                 "n_beyond_unread_refused", "fragmented_decode", "append_behind_existing_content", "multi_frame_stream_fragmented", "source_interruption_during_decode"};
     }
     uint64_t runs(const std::string &, const Tier &t) const override { return t.thorough() ? 10000000 : 1200000; }
@@ -90,7 +90,12 @@ struct LenpHarness : Harness {
             }
             
             o["len"] = (long long)len;
-            if (enc && r.chance(1, 20)) o["huge"] = (long long)r.below(3);   // refusal path with lengths that cannot be materialised
+            if (enc && r.chance(1, 10)) {   // lengths that cannot be materialised: the kinds' maxima and their neighbours, accepted and refused
+                o["huge"] = (long long)r.below(20);
+                static const int64_t CAPS[] = {INT64_MAX, INT64_MAX, 1ll << 31, (1ll << 31) - 1, 1ll << 32, 1ll << 30, 1, 3, 0, -EINTR, -EAGAIN};
+                Json caps = Json::arr(); int nc = (int)r.below(6); for (int q = 0; q < nc; ++q) caps.push((long long)CAPS[r.below(11)]);
+                o["hcaps"] = caps;
+            }
             o["buf"] = gen_buf(r, len, 9);
             o["n"] = (long long)(r.chance(1, 4) ? len : r.range(1, len));
             if (r.chance(1, 10)) o["n"] = (long long)(len + 1);              // n beyond the unread content
@@ -209,10 +214,41 @@ struct LenpHarness : Harness {
             uint64_t n = (uint64_t)len;
             Buf m; m.make(len, len, 0, oi, 1);
             void *ptr = m.b.data;
-            if (o.has("huge")) {   // refusal path: declared length cannot be materialised, memory must not be touched
-                static const uint64_t HUGE_[3] = {0x100000000ull, (uint64_t)SSIZE_MAX + 1ull, 0x100000001ull};
-                n = HUGE_[o.geti("huge") % 3];
-                if (n <= kind_max(k) || (k == 0 && n <= (uint64_t)SSIZE_MAX)) { c.ops_done--; c.execs--; return; }
+            if (o.has("huge")) {   // declared length cannot be materialised, payload memory must not be touched
+                static const uint64_t HUGE_[20] = {0x100000000ull, (uint64_t)SSIZE_MAX + 1ull, 0x100000001ull, 0xffffffffull, 0xfffffffeull, 0x80000000ull, 0x7fffffffull, 0x80000001ull,
+                                                   65535, 65536, 65537, 0x10000000ull /* varint 4/5 */, 0xfffffffull, 0x200000000ull, 0x7ffffffffull, 0x7ffffff80ull,
+                                                   (uint64_t)SSIZE_MAX, 1ull << 56, (1ull << 56) - 1, 1ull << 49};
+                int64_t hi = o.geti("huge"); if (hi < 0) hi = 0;
+                n = HUGE_[hi % 20];
+                if (n <= kind_max(k) && n <= (uint64_t)SSIZE_MAX) {
+                    // accepted: the frame is real, only its payload is never looked at
+                    COUNT("probe.unmaterialised_length_accepted");
+                    if (n == kind_max(k)) COUNT("probe.kind_maximum_accepted");
+                    if (ep == "mem_enc") {
+                        LengthPrefixBuffer lpb; memset(&lpb, 0xa5, sizeof lpb);
+                        int rc = flenp_memory_encode(K, &lpb, ptr, (size_t)n);
+                        c.ev(EV_API, 2, (uint64_t)rc, lpb.prefix.used);
+                        if (check_prefix_obj(rc, lpb.prefix, lpb.prefix_, n)) {
+                            if (lpb.payload.data != m.b.data || byte_buffer_rest(&lpb.payload) != n || lpb.payload.offset != 0)
+                                F("payloadobj", "payload object does not designate the %llu octets given", (unsigned long long)n);
+                        }
+                        if (!m.blk->unchanged_outside(0, 0)) F("constbuf", "payload memory modified");
+                        return;
+                    }
+                    unsigned char *base = huge_base();
+                    if (!base || n > ((uint64_t)1 << 35) - 4096) { c.ops_done--; c.execs--; return; }   // beyond the reserved range: prefix-object form only
+                    VirtualDrv D; D.c = &c; D.base = base; D.total = n; D.accept_small = true;
+                    const Json &cj = o.get("hcaps"); for (size_t i = 0; i < cj.size() && i < 16; ++i) D.caps.push_back(cj.ati(i, INT64_MAX));
+                    Sink vk; chunk_sink_init(&vk, VirtualDrv::sink_cb, &D);
+                    ssize_t rc = 0; bool fin = WITH_BUDGET(c, D.caps.size() + 32, rc = flenp_memory_to_sink(K, &vk, base, (size_t)n));
+                    c.ev(EV_API, 1, (uint64_t)rc, D.moved);
+                    if (!fin) { F("noprogress", "no return within the step budget (length %llu, %llu moved)", (unsigned long long)n, (unsigned long long)D.moved); return; }
+                    Bytes want = ref_prefix(k, n);
+                    if (D.small != want || D.small_after_payload) F("octets", "prefix on the line is not the %zu-octet encoding of %llu in front of the payload", want.size(), (unsigned long long)n);
+                    if (D.bad_ptr || D.bad_n || D.moved != n) F("octets", "payload on the line is not exactly the %llu designated octets in order (%llu moved)", (unsigned long long)n, (unsigned long long)D.moved);
+                    if (rc != (ssize_t)(want.size() + n)) F("total", "returned %zd, expected prefix %zu + payload %llu", rc, want.size(), (unsigned long long)n);
+                    return;
+                }
             }
             if (ep == "mem_sink") {
                 ssize_t rc = 0; bool fin = WITH_BUDGET(c, budget, rc = flenp_memory_to_sink(K, &sink, ptr, (size_t)n));
